@@ -257,6 +257,32 @@ func checkC17(c *Ctx) {
 			if chance(r, 15) {
 				c09Numeric(r, spec)
 			}
+			if k == 1 || k == 2 {
+				// in-memory shapes that only a Go value has: empty or nil device list,
+				// empty non-nil lists, empty annotation maps, zero-valued members
+				switch r.Intn(6) {
+				case 0:
+					spec.Devices = []specs.Device{}
+					muts = append(muts, "struct: devices = empty list")
+				case 1:
+					spec.Devices = nil
+					muts = append(muts, "struct: devices = nil")
+				case 2:
+					spec.Devices[0].ContainerEdits = specs.ContainerEdits{Env: []string{}, Mounts: []*specs.Mount{}}
+					muts = append(muts, "struct: device edits with empty non-nil lists")
+				case 3:
+					spec.Annotations = map[string]string{}
+					spec.Devices[0].Annotations = map[string]string{}
+					muts = append(muts, "struct: empty annotation maps")
+				case 4:
+					spec.Devices[0].Name = ""
+					spec.Kind = ""
+					muts = append(muts, "struct: empty name and kind")
+				default:
+					spec.ContainerEdits = specs.ContainerEdits{IntelRdt: &specs.IntelRdt{}, AdditionalGIDs: []uint32{}}
+					muts = append(muts, "struct: empty intelRdt object")
+				}
+			}
 			d := specDoc(spec)
 			if k >= 4 { // most documents are mutated
 				n := 1 + r.Intn(3)
